@@ -54,6 +54,7 @@ type planCase struct {
 	Method string   `json:"method"`
 	Path   []string `json:"path"`
 	Layout bool     `json:"layout"`
+	Link   bool     `json:"link"`
 }
 
 type bodyID struct {
@@ -280,6 +281,19 @@ func buildWorld(t *testing.T, base, scratch, shape string, plan []planCase) *wor
 		os.Symlink("../"+up, filepath.Join(dir, "tile", "link-up"))
 		os.Symlink("checkpoint", filepath.Join(dir, "link-in"))
 		os.Symlink("tile/0", filepath.Join(dir, "link-in-dir"))
+		// the same below tile/ and issuer/, which is where requests reach the
+		// file server
+		for _, sub := range []string{"tile", "tile/0", "tile/data", "issuer"} {
+			d := filepath.Join(dir, filepath.FromSlash(sub))
+			os.MkdirAll(d, 0o755)
+			ups := strings.Repeat("../", strings.Count(sub, "/")+1)
+			os.Symlink(filepath.Join(base, "decoy-out.txt"), filepath.Join(d, "link-out-file"))
+			os.Symlink(ups+up+"decoy-out.txt", filepath.Join(d, "link-rel-out"))
+			os.Symlink(ups+up+"outdir", filepath.Join(d, "link-out-dir"))
+			os.Symlink(filepath.Join(base, "outdir"), filepath.Join(d, "link-abs-dir"))
+			os.Symlink(ups+"checkpoint", filepath.Join(d, "link-in"))
+			os.Symlink(ups+"tile/0", filepath.Join(d, "link-in-dir"))
+		}
 	}
 	if shape == "C" {
 		// an index.html in every directory
@@ -399,11 +413,12 @@ func selectCases(plan []planCase, tier string, seed int64) []int {
 	if v, err := strconv.Atoi(os.Getenv("VERIF_ROUTES_MAX")); err == nil && v > 0 {
 		max = v
 	} else if tier == "quick" {
-		max = 800
+		max = 1200
 	}
 	var idx, rest []int
 	for i, c := range plan {
-		if c.Layout && c.Method == "GET" && resolve(c.Host, c.Path) != nil {
+		// always: the layout paths and the requests through symbolic links
+		if (c.Layout || c.Link) && c.Method == "GET" && resolve(c.Host, c.Path) != nil {
 			idx = append(idx, i)
 		} else {
 			rest = append(rest, i)
